@@ -301,11 +301,84 @@ fn run_defrag(toks: &[String]) -> String {
     out
 }
 
+fn show_ch<'a, T: ClientHello<'a>>(ctx: &Ctx, c: &T) -> String {
+    sx::c("hello", &[
+        sx::n(c.version().0), sx::slice(ctx, c.random()), sx::n(c.rand_time()), sx::slice(ctx, c.rand_bytes()),
+        sx::opt(&c.session_id(), |s| sx::slice(ctx, s)),
+        sx::list(c.ciphers(), |v| sx::n(v.0)), sx::list(c.comp(), |v| sx::n(v.0)),
+        sx::opt(&c.ext(), |s| sx::slice(ctx, s)),
+        sx::list(&c.cipher_suites(), |o| sx::opt(o, |cs| sx::n(cs.id.0))),
+    ])
+}
+fn show_shello(ctx: &Ctx, c: &TlsServerHelloContents) -> String {
+    sx::c("shello", &[
+        sx::n(c.get_version().0), sx::slice(ctx, c.random), sx::opt(&c.session_id, |s| sx::slice(ctx, s)),
+        sx::n(c.cipher.0), sx::n(c.compression.0), sx::opt(&c.ext, |s| sx::slice(ctx, s)),
+        sx::opt(&c.get_cipher(), |cs| sx::n(cs.id.0)),
+    ])
+}
+fn opt_tok(t: &str) -> Option<Vec<u8>> { if t == "N" { None } else { Some(unhex(t)) } }
+fn nums_tok(t: &str) -> Vec<u64> { if t == "-" { Vec::new() } else { t.split('.').map(|x| x.parse().unwrap_or(0)).collect() } }
+
+fn run_hello(toks: &[String]) -> String {
+    let f = |k: usize| -> &str { toks.get(k).map(|s| s.as_str()).unwrap_or("") };
+    match f(0) {
+        "tls" => {
+            let b = unhex(f(1)).into_boxed_slice();
+            let ctx = Ctx::of(&b);
+            match parse_tls_handshake_client_hello(&b) {
+                Ok((_, c)) => {
+                    // the inherent getters must agree with the trait
+                    if c.get_version() != c.version() || c.get_ciphers().len() != c.cipher_suites().len() { return "(getters-disagree)".to_string(); }
+                    for (a, b2) in c.get_ciphers().iter().zip(c.cipher_suites().iter()) {
+                        if a.map(|x| x.id.0) != b2.map(|x| x.id.0) { return "(getters-disagree)".to_string(); }
+                    }
+                    show_ch(&ctx, &c)
+                }
+                Err(_) => "(noparse)".to_string(),
+            }
+        }
+        "dtls" => {
+            let b = unhex(f(1)).into_boxed_slice();
+            let ctx = Ctx::of(&b);
+            match parse_dtls_message_handshake(&b) {
+                Ok((_, DTLSMessage::Handshake(h))) => match &h.body {
+                    DTLSMessageHandshakeBody::ClientHello(c) => show_ch(&ctx, c),
+                    _ => "(noparse)".to_string(),
+                },
+                _ => "(noparse)".to_string(),
+            }
+        }
+        "sh" => {
+            let b = unhex(f(1)).into_boxed_slice();
+            let ctx = Ctx::of(&b);
+            match parse_tls_handshake_server_hello(&b) { Ok((_, c)) => show_shello(&ctx, &c), Err(_) => "(noparse)".to_string() }
+        }
+        "new" => {
+            let random = unhex(f(2)); let sid = opt_tok(f(3)); let ext = opt_tok(f(6));
+            let c = TlsClientHelloContents::new(f(1).parse::<u64>().unwrap_or(0) as u16, &random, sid.as_deref(),
+                nums_tok(f(4)).into_iter().map(|x| TlsCipherSuiteID(x as u16)).collect(),
+                nums_tok(f(5)).into_iter().map(|x| TlsCompressionID(x as u8)).collect(), ext.as_deref());
+            // all slices are separate allocations: print them position-free
+            let ctx = Ctx { base: 0, len: 0, buf_base: 0, buf_len: 0, abs: false };
+            show_ch(&ctx, &c)
+        }
+        _ => {
+            let random = unhex(f(2)); let sid = opt_tok(f(3)); let ext = opt_tok(f(6));
+            let c = TlsServerHelloContents::new(f(1).parse::<u64>().unwrap_or(0) as u16, &random, sid.as_deref(),
+                f(4).parse::<u64>().unwrap_or(0) as u16, f(5).parse::<u64>().unwrap_or(0) as u8, ext.as_deref());
+            let ctx = Ctx { base: 0, len: 0, buf_base: 0, buf_len: 0, abs: false };
+            show_shello(&ctx, &c)
+        }
+    }
+}
+
 pub fn run_history(name: &str, toks: &[String]) -> String {
     let num = |k: usize| -> u64 { toks.get(k).and_then(|s| s.parse().ok()).unwrap_or(0) };
     match name {
         "states" => run_states(toks),
         "defrag" => run_defrag(toks),
+        "@hello" => run_hello(toks),
         #[cfg(feature = "serialize")]
         "@ser" => crate::ser::run_ser(toks),
         "@nt" => run_nt(toks.get(0).map(|s| s.as_str()).unwrap_or(""), num(1)),
